@@ -44,6 +44,8 @@ OBLIGATIONS = {
     "undefined_event": "an event whose reference meaning is undefined was fired",
     "derived_track_edited": "a track cut out of a track listing >= 2 features got a feature added and one removed",
     "self_assignment": "an expression assigns an existing feature to itself",
+    "operator_written_in_place": "a void operator object was applied with its output name equal to an input name and compared "
+                                 "with the same operator written to a new name",
 }
 
 
@@ -460,6 +462,91 @@ def make_check(ctx, N, variant, root_case):
 
 
 # ---------------------------------------------------------------------------
+# ---------------------------------------------------------------------------
+# output name = input name: every void operator object, written in place, must write what it writes to a new name
+# (differential oracle, no per-operator model: an operator that reads a column while it overwrites it fails here)
+# ---------------------------------------------------------------------------
+import tracklib.core.operators as _OPS
+
+ALIAS_SKIP = ("RANDOM", "APPLY", "FILTER", "FILTER_FFT")     # random / need a function or a kernel (C15 filters in place)
+ALIAS_SIZES = [1, 2, 3, 5]
+
+
+def alias_ops():
+    out = []
+    for base, kind in (("UnaryVoidOperator", "u"), ("BinaryVoidOperator", "b"), ("ScalarVoidOperator", "s")):
+        B = getattr(_OPS, base)
+        for name in sorted(n for n in dir(Operator) if isinstance(getattr(Operator, n), B)):
+            if name not in ALIAS_SKIP:
+                out.append((name, kind))
+    return out
+
+
+def alias_forms(kind):
+    if kind == "u":
+        return [["a", "a"], ["a", None]]                  # None: the output argument is left out (defaults to the input)
+    if kind == "b":
+        return [["a", "b", "a"], ["a", "b", "b"], ["a", "a", "a"]]
+    return [["a", 1, "a"], ["a", 2, "a"], ["a", -1, "a"], ["a", 1, None]]
+
+
+def _alias_track(variant, n):
+    t = make_root(n, variant)()
+    va = [alpha.const(variant, v) for v in (1.0, -2.0, 0.5, 4.0, 3.0)][:n]
+    vb = [alpha.const(variant, v) for v in (2.0, 3.0, -1.0, 0.25, 5.0)][:n]
+    t.createAnalyticalFeature("a", va)
+    t.createAnalyticalFeature("b", vb)
+    return t
+
+
+def check_alias(variant, n, name, kind, form, ctx):
+    case = {"kind": "alias", "variant": variant, "N": n, "op": name, "opkind": kind, "form": list(form)}
+    op = getattr(Operator, name, None)
+    ctx.case(n >= 2)
+    if op is None:
+        return
+    t1, t2 = _alias_track(variant, n), _alias_track(variant, n)
+    ins = form[:-1]
+    tgt = form[-1] if form[-1] is not None else form[0]
+    r1 = guard(t1.operate, op, *(ins + ["fresh"]))
+    r2 = guard(t2.operate, op, *(ins + ([form[-1]] if form[-1] is not None else [])))
+    ctx.transition(2)
+    key = "operator-in-place/%s/" % name
+    if r2[0] == "hang":
+        ctx.violation(key + "does-not-return", case, r2[1])
+        return
+    if r1[0] != "ok":
+        ctx.undef()              # the operator does not apply to these values at all: nothing to compare
+        return
+    if r2[0] != "ok":
+        ctx.violation(key + "raises-only-when-the-output-is-an-input", case, r2[1])
+        return
+    bad = invariant(t2)
+    if bad:
+        ctx.violation(key + bad, case, {"listed": t2.getListAnalyticalFeatures()})
+        return
+    want = list(t1.getAnalyticalFeature("fresh"))
+    got = read_model(t2)
+    if tgt not in got["af"] or not _eq(want, got["af"][tgt]):
+        ctx.violation(key + "values-differ-from-the-same-operator-written-to-a-new-name", case,
+                      {"written_to_new_name": want, "written_in_place": got["af"].get(tgt)})
+        return
+    ref = read_model(_alias_track(variant, n))
+    for nm in ref["af"]:
+        if nm != tgt and not _eq(ref["af"][nm], got["af"].get(nm, [])):
+            ctx.violation(key + "other-feature-altered", case, {"feature": nm, "got": got["af"].get(nm)})
+            return
+    if sorted(got["names"]) != sorted(ref["names"]):
+        ctx.violation(key + "unexpected-feature-listed", case, {"listed": got["names"]})
+        return
+    for c in ("x", "y", "z", "t"):
+        if not _eq(ref[c], got[c]):
+            ctx.violation(key + "coordinate-or-timestamp-changed", case, None)
+            return
+    ctx.oblige("operator_written_in_place")
+    ctx.outcome(("alias", name, n))
+
+
 def plan(tier, variant):
     """One shard per distinct depth-1 state (prefix of length 1) of each size; plus the root expansion itself."""
     shards = []
@@ -478,10 +565,22 @@ def plan(tier, variant):
                 continue
             seen.add(k)
             shards.append({"N": N, "variant": variant, "prefix": [list(ev)], "depth": DEPTH[tier] - 1})
+    for kind in ("u", "b", "s"):
+        shards.append({"kind": "alias", "N": 0, "variant": variant, "opkind": kind})
     return shards
 
 
 def run_shard(shard, ctx):
+    if shard.get("kind") == "alias":
+        v = shard["variant"]
+        todo = [(nm, k) for nm, k in alias_ops() if k == shard["opkind"]]
+        for nm, k in todo:
+            for form in alias_forms(k):
+                for n in ALIAS_SIZES:
+                    check_alias(v, n, nm, k, form, ctx)
+        ctx.sample({"operators": [nm for nm, _ in todo], "forms (inputs..., output; null = left out)": alias_forms(shard["opkind"]),
+                    "sizes": ALIAS_SIZES})
+        return
     N, variant = shard["N"], shard["variant"]
     evs = _events(N, variant)
     prefix = tuple(tuple(e) for e in shard["prefix"])
@@ -495,6 +594,8 @@ def run_shard(shard, ctx):
 
 
 def replay(case, ctx):
+    if case.get("kind") == "alias":
+        return check_alias(case["variant"], case["N"], case["op"], case["opkind"], case["form"], ctx)
     N, variant = case["N"], case["variant"]
     mk, ap = make_root(N, variant), apply_event(N, variant)
     t = mk()
